@@ -284,7 +284,5 @@ def _oracle(r, scen, outs, wd):
 
 def replay(ctx, obj):
     if "request" not in obj.get("replay", {}):
-        print(obj.get("what"))
-        print("VIOLATION property=C01 replay=%s no-failing-input-found" % obj.get("rerun", "").split()[-1])
-        return 1
+        return vcore.replay_obligations(ctx, "C01", obj, PROPS, ("verify", "signatures", "expiry"))
     return vcore.replay(ctx, "C01", obj, oracle=_oracle)
